@@ -14,7 +14,7 @@ cp $demo $wt/$pkg/zz_seed_demo_test.go
 cd $wt
 echo "--- demo on unchanged tree (must pass)"
 go test -vet=off -count=1 $extra -run 'Seed|Demo|C[0-9][0-9]' ./$pkg 2>&1 | tail -3; r0=${PIPESTATUS[0]}
-git apply $sd/patch.diff || { echo "PATCH DOES NOT APPLY"; exit 2; }
+git apply $sd/patch.diff 2>/dev/null || patch -p1 -s -F3 < $sd/patch.diff || { echo "PATCH DOES NOT APPLY"; exit 2; }
 echo "--- demo on changed tree (must fail)"
 go test -vet=off -count=1 $extra -run 'Seed|Demo|C[0-9][0-9]' ./$pkg 2>&1 | tail -6; r1=${PIPESTATUS[0]}
 rm -f $wt/$pkg/zz_seed_demo_test.go
